@@ -852,12 +852,37 @@ func (fc *FnCtx) execAlloc(x *ssa.Alloc) error {
 // one opaque value otherwise.
 func (fc *FnCtx) arrayRegionMode(x *ssa.Alloc) bool {
 	for _, r := range *x.Referrers() {
-		switch r.(type) {
-		case *ssa.IndexAddr, *ssa.Slice:
+		switch u := r.(type) {
+		case *ssa.IndexAddr:
 			return true
+		case *ssa.Slice:
+			if !onlyComparedSlice(u) {
+				return true
+			}
 		}
 	}
 	return false
+}
+
+// onlyComparedSlice: the slice x[:] is only passed to bytes.Equal (a whole-value comparison).
+func onlyComparedSlice(s *ssa.Slice) bool {
+	if s.Low != nil || s.High != nil || s.Max != nil {
+		return false
+	}
+	for _, r := range *s.Referrers() {
+		c, ok := r.(*ssa.Call)
+		if !ok {
+			if _, dbg := r.(*ssa.DebugRef); dbg {
+				continue
+			}
+			return false
+		}
+		f, ok := c.Call.Value.(*ssa.Function)
+		if !ok || f.String() != "bytes.Equal" {
+			return false
+		}
+	}
+	return true
 }
 
 func (fc *FnCtx) execIndexAddr(x *ssa.IndexAddr) error {
@@ -1375,6 +1400,13 @@ func (fc *FnCtx) execSlice(x *ssa.Slice) error {
 			return nil
 		}
 		n := fmt.Sprintf("%d", at.Len())
+		if a, ok := x.X.(*ssa.Alloc); ok && !fc.arrayRegionMode(a) && onlyComparedSlice(x) {
+			// whole-array view of an array kept as one opaque value
+			c := boxComp(bt.Elem())
+			v := sel(fc.getComp(c, arraySort("Int")), base.T)
+			fc.env[x] = Val{T: mkSlice("0", "0", n, n), S: SSlice, Typ: x.Type(), ArrView: v}
+			return nil
+		}
 		lo, err := get(x.Low, "0")
 		if err != nil {
 			return err
